@@ -254,6 +254,8 @@ c07_cases = [
     case("n0=0 duplicates at every yield point", "VerifC02", [0, 0, 1, 0], ["done", "duplicate"], Q),
     case("n0=1 cache loss or rollback", "VerifC02", [1, 0, 1, 1], ["done", "duplicate"], Q),
     case("n0=1 failed round then resubmission", "VerifC02", [1, 1, 1, 0], ["done", "fatal"], Q),
+    case("acknowledged indexes under eviction, pool size 1", "VerifC17Pool", [1, 3], ["sequenced", "eviction"], Q),
+    case("acknowledged indexes under eviction, pool size 2", "VerifC17Pool", [2, 4], ["sequenced", "eviction"], Q),
     case("n0=255 two actions with cache loss", "VerifC02", [255, 0, 2, 1], ["done"], T),
     case("n0=2 two faults two actions", "VerifC02", [2, 2, 2, 0], ["done"], T),
 ]
@@ -266,10 +268,33 @@ CHECKS["C02"] = {
 }
 CHECKS["C07"] = {
     "level": "model_checking",
-    "jobs": [dict(CTLOG, harness=WORLD + ["internal_ctlog/zz_verif_c01.go", "internal_ctlog/zz_verif_c03.go", "internal_ctlog/zz_verif_c02.go"], native=False, cases=c07_cases)],
+    "jobs": [dict(CTLOG, harness=WORLD + ["internal_ctlog/zz_verif_c01.go", "internal_ctlog/zz_verif_c03.go", "internal_ctlog/zz_verif_c02.go", "internal_ctlog/zz_verif_c17.go"], native=False, cases=c07_cases)],
     "bounds": {"quick": "up to 5 submissions of 2 symbolic bytes (every duplicate pattern), placed before the round, at any yield point, between rounds and after a restart; cache rollback to any earlier state; one fault",
                "thorough": "two interleaved actions, two faults, pre-state 255"},
     "assumptions": WORLD_ASSUME + ["submitters run as atomic sections at yield points", "legacy 128-bit cache table and the recompute-cache tool are covered by the cache-key kernel check"],
+}
+
+# ---------------------------------------------------------------- C17
+C17H = WORLD + ["internal_ctlog/zz_verif_c01.go", "internal_ctlog/zz_verif_c03.go", "internal_ctlog/zz_verif_c02.go", "internal_ctlog/zz_verif_c17.go"]
+c17_cases = [
+    case("pool size 1, 3 arrivals", "VerifC17Pool", [1, 3], ["sequenced", "eviction", "rejected"], Q),
+    case("pool size 2, 4 arrivals", "VerifC17Pool", [2, 4], ["sequenced", "eviction", "rejected", "pool-duplicate"], Q),
+    case("unlimited pool, 3 arrivals", "VerifC17Pool", [0, 3], ["sequenced"], Q),
+    case("pool size 3, 5 arrivals", "VerifC17Pool", [3, 5], ["sequenced", "eviction", "rejected"], T),
+    case("pool size 2, 6 arrivals", "VerifC17Pool", [2, 6], ["sequenced", "eviction", "rejected"], T),
+    case("stop by cancellation", "VerifC17Stop", [0, 1], ["stopped"], Q),
+    case("stop by the read-only date", "VerifC17Stop", [1, 1], ["stopped"], Q),
+    case("stop by a fatal lock failure", "VerifC17Stop", [2, 0], ["stopped"], Q),
+    case("stop by a fatal lock failure after two rounds", "VerifC17Stop", [2, 2], ["stopped"], T),
+]
+CHECKS["C17"] = {
+    "level": "model_checking",
+    "jobs": [dict(CTLOG, harness=C17H, native=False, cases=c17_cases)],
+    "bounds": {"quick": "pool sizes 0 (unlimited), 1, 2; 3-4 arrivals with symbolic priority and symbolic bytes; the eviction victim is chosen by a symbolic map-iteration start; one round; "
+                        "RunSequencer with a manual ticker stopped by cancellation, by the read-only date (symbolic time past the limit) or by a lock failure",
+               "thorough": "pool size 3 with 5 arrivals, pool size 2 with 6 arrivals, stops after two rounds"},
+    "assumptions": WORLD_ASSUME + ["virtual time: the ticker fires when the harness says so; time.Since is a harness-controlled value", "HTTP status mapping (503/410/500) is checked in C09's harness",
+                                   "goroutine scheduling is cooperative: the sequencer goroutine runs until it blocks"],
 }
 
 # ---------------------------------------------------------------- manifest texts
